@@ -6,7 +6,7 @@
 set -u
 ID="$1"; K="$2"; shift 2
 CHECKS="${*:-$ID}"
-WT="/tmp/wt_$ID"
+WT="${WT_PREFIX:-/tmp/wt_}$ID"
 P="$WT/_seed/patch$K.diff"
 [ -f "$P" ] || { echo "no patch $P"; exit 2; }
 cd "$WT" || exit 2
